@@ -267,10 +267,16 @@ def run_coq_cases(rundir, timeout):
 
 
 def load_known(prop):
-    p = os.path.join(VERIF, "known_findings.json")
-    if not os.path.exists(p):
-        return []
-    return [e for e in json.load(open(p)).get("findings", []) if e.get("property") == prop]
+    """known_findings.json plus per-property files known_findings.d/*.json (same format)"""
+    files = [os.path.join(VERIF, "known_findings.json")]
+    d = os.path.join(VERIF, "known_findings.d")
+    if os.path.isdir(d):
+        files += sorted(os.path.join(d, f) for f in os.listdir(d) if f.endswith(".json"))
+    res = []
+    for p in files:
+        if os.path.exists(p):
+            res += [e for e in json.load(open(p)).get("findings", []) if e.get("property") == prop]
+    return res
 
 
 def explain(fail, tags, known):
